@@ -20,6 +20,7 @@ type Request struct {
 	WantProto bool `json:"proto,omitempty"`
 	File      bool `json:"file,omitempty"`  // load through LState.LoadFile from a temporary file
 	WantParse bool `json:"parse,omitempty"` // also run the parse stage alone (parse.Parse)
+	Slow      bool `json:"slow,omitempty"`  // deliver the source through a one-byte-per-Read reader (LState.Load)
 	LimitMs   int  `json:"-"`
 }
 
@@ -37,10 +38,10 @@ func childMain() {
 		if rq.File {
 			res.Load, res.Msg = loadFileOnce(rq.Src)
 		} else {
-			res.Load, res.Msg, res.Proto = loadOnce(rq.Src, rq.WantProto)
+			res.Load, res.Msg, res.Proto = loadOnceR(rq.Src, rq.WantProto, rq.Slow)
 		}
 		if rq.WantToks {
-			res.Toks, res.LexErr, res.LexFail = scanAll(rq.Src)
+			res.Toks, res.LexErr, res.LexFail = scanAllR(rq.Src, rq.Slow)
 		}
 		if rq.WantParse {
 			res.ParseStage, res.ParseMsg = parseStage(rq.Src)
